@@ -18,7 +18,13 @@ if [ "$what" = mutations ] || [ "$what" = all ]; then
     out=$(lib/try_seed.sh "$1" quick "$2" 2>&1 | head -1)
     if echo "$out" | grep -q "rc=1"; then echo "detected   $2 $(basename $(dirname $1))/$(basename $1)"; else echo "NOT DETECTED $2 $1 :: $out"; rc=3; fi
   }
-  for p in mutations/*.patch; do
+  quiet() { # <patch> <properties...>: a legitimate change, no check may raise an alarm
+    patch=$1; shift
+    out=$(lib/try_seed.sh "$patch" quick "$@" 2>&1 | grep '^\[')
+    if echo "$out" | grep -qv "rc=0"; then echo "FALSE ALARM on $(basename $patch): $out"; rc=3; else echo "quiet      $* $(basename $patch)"; fi
+  }
+  for p in mutations/NEG-*.patch; do quiet "$PWD/$p" C01 C04 C05 C06 C07 C08 C13 C16; done
+  for p in mutations/C*.patch; do
     case "$(basename $p)" in
       C20-shard-guard-held-across-await.patch|C20-dropped-call-leaves-marker.patch) continue;; # equivalent mutants, see DESIGN §12.2
     esac
